@@ -221,12 +221,13 @@ fn text(v: &Value, alphabet: &[&str]) -> String {
 
 thread_local! {
     /// the previous name-lookup ontology of this process, per alphabet: a lookup is a function of the ontology it is asked of
-    static PREV_NAMES: std::cell::RefCell<Vec<Option<(Ontology, Vec<(u32, String)>)>>> = std::cell::RefCell::new(vec![None, None, None]);
+    static PREV_NAMES: std::cell::RefCell<Vec<Option<(Ontology, Vec<(u32, String)>)>>> = std::cell::RefCell::new(vec![None, None, None, None]);
 }
 
 fn check_names(st: &mut Stats, line: &Value) -> Vec<String> {
     let mut d = vec![];
-    for (ai, alphabet) in [["a", "b"], ["é", "😀"], ["ab", "a"]].into_iter().enumerate() {
+    // (the fourth alphabet renders the first letter as a BLANK: names and queries that start / end with white space or consist of it)
+    for (ai, alphabet) in [["a", "b"], ["é", "😀"], ["ab", "a"], [" ", "a"]].into_iter().enumerate() {
         // the third alphabet makes distinct model strings collide; it is only used with the
         // expectations recomputed on the rendered strings
         let collide = alphabet[0] == "ab";
